@@ -110,7 +110,45 @@ Theorem C14_exec_conservation : forall c e dom ts ns s pre,
 Proof. exact exec_block_conservation. Qed.
 Print Assumptions C14_exec_conservation.
 
+(** fees reach the admins: over any block, what leaves the books is between 0 and (admins - 1) units
+    per transaction - on every fee path, including the whole-balance fallback of a sender who is
+    itself a fee-receiving admin (its own share is credited AFTER its account was emptied) *)
+Theorem C14_block_accounting : forall dom e, admins e <> [] -> NoDup dom ->
+  forall ts b b' oks g, covers dom e ts ->
+  apply_block fcfg_fixed e b ts = (b', oks, g) ->
+  exists loss, 0 <= loss <= (Z.of_nat (length (admins e)) - 1) * Z.of_nat (length ts) /\
+               sumb dom b' = sumb dom b + g - loss.
+Proof. exact block_accounting. Qed.
+Print Assumptions C14_block_accounting.
+
+Theorem C14_exec_loss_bound : forall c e dom ts ns s pre,
+  d_stale_changer c = false -> d_prev_from_memory c = false -> d_revert_drops_tombstone c = false ->
+  x_fees c = fcfg_fixed ->
+  admins e <> [] -> NoDup dom -> covers dom e ts ->
+  let '(s', rcs, _) := exec_block c e s pre (to_txs e ts ns) in
+  let '(_, _, g) := apply_block fcfg_fixed e (bal s) ts in
+  loss_bound dom (bal s) (bal s') g (length (admins e)) (length ts).
+Proof. exact exec_block_loss_bound. Qed.
+Print Assumptions C14_exec_loss_bound.
+
+(** the order of the two statements of the fallback matters for an admin sender: emptying the
+    account after paying the admins keeps conservation but loses the sender's share (expected
+    refutation of that order; the code as it stands empties first) *)
+Theorem C14_fallback_admin_sender :
+  loss_b [100%N; 101%N; 102%N; 103%N] b_drained (pay_left env4 b_drained 101%N) 0 4 1 = true /\
+  pay_left env4 b_drained 101%N 101%N = 197125000.
+Proof. exact fallback_admin_sender. Qed.
+
+Theorem C14_zero_last_refuted :
+  loss_b [100%N; 101%N; 102%N; 103%N] b_drained (pay_left_zero_last env4 b_drained 101%N) 0 4 1 = false /\
+  pay_left_zero_last env4 b_drained 101%N 101%N = 0 /\
+  conserve_b [100%N; 101%N; 102%N; 103%N] b_drained (pay_left_zero_last env4 b_drained 101%N) 0 = true.
+Proof. exact zero_last_refuted. Qed.
+Print Assumptions C14_zero_last_refuted.
+
 (** the boolean predicates the judge evaluates on implementation traces are the propositions above *)
+Theorem C14_loss_b_spec : forall dom b b' g n k, loss_b dom b b' g n k = true <-> loss_bound dom b b' g n k.
+Proof. exact loss_b_spec. Qed.
 Theorem C14_conserve_b_spec : forall dom b b' g, conserve_b dom b b' g = true <-> conserve dom b b' g.
 Proof. exact conserve_b_spec. Qed.
 Theorem C14_nonneg_b_spec : forall dom b, nonneg_b dom b = true <-> nonneg_on dom b.
